@@ -5,7 +5,7 @@ from regcommon import *
 
 META = dict(
     engine='RegTable.tla',
-    technique='TLA+ spec RegTable.tla (InitAllowed: staged well-formedness rules with the allowed (code, index) pairs; WellFormed: the five rules declaratively; InitMem/AreaLinks: post-state); register_init is run on an enumerated family of descriptions (area layouts x register layouts x defaults x area kinds) and TLC validates each recorded result, checks acceptance iff WellFormed as action property, and that every operation afterwards reports uninitialised',
+    technique='TLA+ spec RegTable.tla / RegInitMC.tla (TLC enumerates ~10^6 descriptions of a grid and checks acceptance iff WellFormed on each, emitted cases replayed; InitAllowed: staged well-formedness rules with the allowed (code, index) pairs; WellFormed: the five rules declaratively; InitMem/AreaLinks: post-state); register_init is run on an enumerated family of descriptions (area layouts x register layouts x defaults x area kinds) and TLC validates each recorded result, checks acceptance iff WellFormed as action property, and that every operation afterwards reports uninitialised',
     level='The checks enumerate area layouts (0-3 areas, bases/sizes from a small grid incl. adjacency, overlap by one word, reversed order) crossed with register layouts (0-3 registers of sizes 1/2/4 at every address of the window, plus sampled 4-5 register layouts, straddling area ends and holes), defaults inside/outside the constraint and non-finite float defaults, skip-defaults and no-write-callback areas; each description is built on the heap with exact-size arrays and initialised by the real code; TLC validates code and index (allowed set), on success the per-area first/last/count and the whole memory image (defaults loaded, everything else zero), and after failures that typed, block, iteration and sanitise calls all report uninitialised; InitAcceptsIffWellFormed is checked on every step.',
     note='Trusted: TLC, harness/regtab.c (table construction incl. end markers). Within one rule stage the first offending index may be read index-major (as coded) or rule-major (R4). Limits on the number of areas/entries (65535 / 2^32-1) are not exercised.',
 )
@@ -115,6 +115,19 @@ def run(tier):
     v = vf.Verdict('C04', tier)
     vf.build()
     quick = tier != 'thorough'
+    # E0/E1: TLC enumerates a grid of ~10^6 descriptions, checks "accepts iff well-formed" on each, emits a subset with the
+    # allowed results for replay on the real register_init
+    cases = []
+    r0 = vf.tlc_must_pass('RegInitMC.tla', 'RegInitMC.cfg', 'reginit', heap='16g',
+                          sink=lambda b: cases.append(b[3:]) if b.startswith('C;;') else None)
+    v.add_tlc(r0)
+    res = vf.run_scripts('regtab', [[c] for c in cases], 'C04', name='ri')
+    v.exec_problems(res, 'regtab')
+    v.cov['traces_validated_against_impl'] += len(cases)
+    v.cov['evaluations'] += res.checked
+    v.notes['e0_e1'] = dict(model='RegInitMC.tla', descriptions_checked=r0.distinct, cases_replayed=len(cases),
+                            accepted=sum(1 for c in cases if c.split(' | ')[1].startswith('0 0')))
+    v.cov['samples'].append(dict(kind='E1 case from TLC (tinit <description> | allowed (code index) pairs or post-state)', events=cases[1000:1002]))
     rnd = random.Random(vf.seed())
     ss = list(scripts(rnd, quick))
     vf.trace_flow(v, 'RegTableTrace.tla', 'RegTableTrace.cfg', 'regtab', ss, 'ti')
